@@ -95,9 +95,10 @@ def run(ck, P):
             base = lv[:-len(".tokens")]
             timer_atom = "(src->userptr == &%s)" % base
             ok = f.name == "push_evt" and has(facts, "(%s < %s.burst)" % (lv, base))
-            # is_tb_timer local: the increment must be under the branch on the local defined as userptr == &mod->tb
-            tl = [e for e in f.events() if e.kind == "decl" and e.rhs is not None and S(e.rhs) == timer_atom]
-            ok = ok and bool(tl) and has(facts, tl[0].e["name"]) and has(facts, "is_internal")
+            # the increment is under "this is the bucket's own internal timer", however the two tests are spelt (boolean locals, a saved
+            # copy of the user pointer, in place)
+            rf_ = rules.resolve_atoms(f, facts or ())
+            ok = ok and has(rf_, timer_atom) and any(has(rf_, "(src->flags & %d)" % b_) for b_ in (128,))
             det = "refill in %s under %s" % (f.name, fmt_facts(frozenset(x for x in facts if "tb" in x[0] or "internal" in x[0] or "timer" in x[0])))
         elif op == "=":
             v = cval(ev.rhs)
@@ -125,6 +126,22 @@ def run(ck, P):
             nl += 1
             if S(sts[-1].rhs) != "burst":
                 badl = path
+    # ... and a new capacity never comes without a new fill: a path that stores the burst keeps the tokens within it
+    badb = None
+    nb_ = 0
+    for path in tbf.paths():
+        evs = list(rules.path_events(tbf, path))
+        bs = [e for e in evs if e.kind == "assign" and S(e.lhs) == "mod->tb.burst"]
+        if not bs:
+            continue
+        nb_ += 1
+        sts = [e for e in evs if e.kind == "assign" and S(e.lhs) == "mod->tb.tokens"]
+        if not sts or S(sts[-1].rhs) != S(bs[-1].rhs):
+            badb = path
+    ck.ob("C18.2-COUNTER", tbf.site("capacity and fill change together"), badb is None and nb_ > 0,
+          "%d path(s) store a burst, each leaves tokens at that burst" % nb_ if badb is None else
+          "a path stores a new burst and leaves the token count as it was: after the capacity was lowered the module still holds the old, larger number "
+          "of tokens and can act more often than rate and burst allow", path=rules.fmt_path(tbf, badb) if badb else None)
     ck.ob("C18.2-COUNTER", tbf.site("bucket ends at burst"), badl is None and nl > 0,
           "%d configuring path(s) leave tokens = burst" % nl if badl is None else "a path with rate != 0 leaves the bucket at a value other than burst (unlimited)",
           path=rules.fmt_path(tbf, badl) if badl else None)
@@ -147,7 +164,10 @@ def run(ck, P):
     ck.ob("C18.3-REFILL", tb.site("period"), okn, "timer.ns = %s under %s" % ([S(e.rhs) for e in ns], [fmt_facts(frozenset(x for x in X.facts(tb, e) if "rate" in x[0])) for e in ns]))
     regs = list(tb.calls("m_mod_src_register_tmr"))
     pe = P.fn("push_evt", "Lib/core/ctx.c")
-    recog = [e for e in pe.events() if e.kind == "decl" and e.rhs is not None and S(e.rhs) == "(src->userptr == &mod->tb)"]
+    # (a comparison of the source's user pointer with &mod->tb, in a boolean local or a branch, directly or through a saved copy)
+    cand_ = [x for e in pe.events() if e.kind == "decl" and e.rhs is not None for x in lm.atoms(e.rhs, True)]
+    cand_ += [x for b_ in pe.blocks.values() if b_.term and b_.term.get("cond") is not None for x in lm.atoms(b_.term["cond"], True)]
+    recog = [a_ for x in cand_ for (a_, _p) in rules.resolve_atoms(pe, [x]) if a_ == "(src->userptr == &mod->tb)"]
     okr = bool(regs) and all(cval(e.args[2]) == ((1 << 7) | P.enums["M_SRC_PRIO_HIGH"]) and S(e.args[3]) == "&mod->tb" and S(e.args[1]) == "&mod->tb.timer" for e in regs) and bool(recog)
     ck.ob("C18.3-REFILL", tb.site("registration"), okr, "registered as %s; recognised in push_evt: %s" % ([(cval(e.args[2]), S(e.args[3])) for e in regs], bool(recog)))
     dr = [e for e in tb.calls() if e.callee in TMR_REMOVERS]
